@@ -83,4 +83,4 @@ PLAN["C16"] = dict(
     thorough=["notready4", "disabled4", "hostile4", "hostile5"],
     needs_off=True,
 )
-SIDE = {}
+from side import SIDE
